@@ -523,9 +523,23 @@ def patho_uncontracted_block(rng):
     return b
 
 
+def patho_sp_zero_edges(rng):
+    """an sp shell whose tightest and most diffuse primitives contribute to s only (what fusing an s and a p shell with different
+    exponent sets gives); the element has no other p function, so the p primitives are exactly the inner three"""
+    b = gen_basis(rng, nel=1, allow_fused=False, lmax=0)
+    el = next(iter(b['elements'].values()))
+    el['electron_shells'] = [{'function_type': 'gto', 'region': '', 'angular_momentum': [0], 'exponents': ['160.0', '24.0', '5.5'],
+                              'coefficients': [['0.15', '0.55', '0.45']]},
+                             {'function_type': 'gto', 'region': '', 'angular_momentum': [0, 1], 'exponents': ['11.0', '3.2', '0.9', '0.25', '0.08'],
+                              'coefficients': [['-0.10', '0.20', '0.60', '0.40', '0.15'], ['0.0', '0.12', '0.45', '0.55', '0.0']]},
+                             {'function_type': 'gto_spherical', 'region': '', 'angular_momentum': [2], 'exponents': ['0.8'], 'coefficients': [['1.0']]}]
+    b['function_types'] = whole_types(b['elements'])
+    return b
+
+
 NOT_VALIDATOR_VALID = [patho_fused_zero_member]
 PATHOLOGICAL = [patho_dup_function, patho_contraction_on_free, patho_mixed_fused, patho_spd, patho_spd_free_low, patho_spd_free_high, patho_pd_fused,
                 patho_equal_coefficients, patho_plain_then_fused_shared, patho_cancelling, patho_unsorted_fused, patho_respelled_shared,
                 patho_p_only_primitive_in_sp, patho_tiny_edge_coefficient,
                 patho_block_general_shared_column, patho_near_equal_exponents,
-                patho_uncontracted_block]
+                patho_uncontracted_block, patho_sp_zero_edges]
